@@ -464,7 +464,26 @@ func (g *pgen) closureOver(name string) *Node {
 }
 
 func (g *pgen) idiom() *Node {
-	switch g.draw(3, "idiom") {
+	switch g.draw(4, "idiom") {
+	case 3:
+		// fresh locals: a function called with fewer arguments than parameters right after deeper calls have used the
+		// same stack region must see undefined parameters, undefined vars and uninitialised lexical bindings
+		IdiomHits["fresh-locals"]++
+		d, u, tz := g.fresh("dirty"), g.fresh("u"), g.fresh("t")
+		a, b, c := g.fresh("p"), g.fresh("p"), g.fresh("p")
+		dirty := FuncDecl("function", d, Params(Id("n")),
+			VarDecl("var", Declarator(Id("q1"), Obj()), Declarator(Id("q2"), Num(7)), Declarator(Id("q3"), Str("s"))),
+			Return(Cond(Bin(">", Id("n"), Num(0)), Call(Id(d), Bin("-", Id("n"), Num(1))), Arr(Id("q1"), Id("q2"), Id("q3")))))
+		body := []*Node{
+			VarDecl("var", Declarator(Id(u), nil)),
+			Try(Block(Log(Id(tz))), Id("e"), Block(Log(Dot(Id("e"), "name"))), nil),
+			VarDecl("let", Declarator(Id(tz), g.literal())),
+			Return(Arr(Typeof(Id(u)), Typeof(Id(b)), Typeof(Id(c)), Id(u), Id(tz))),
+		}
+		nargs := g.draw(3, "fl args")
+		args := []*Node{g.literal(), g.literal()}[:min(nargs, 2)]
+		return Block(dirty, ExprStmt(Call(Id(d), Num(float64(1+g.draw(4, "fl depth"))))),
+			Log(Call(Paren(Func("function", "", Params(Id(a), Id(b), Id(c)), body...)), args...)))
 	case 0:
 		// temporal dead zone: a use of a lexical binding before its declaration, the binding being a plain local,
 		// captured by a closure, or visible to eval
